@@ -7,6 +7,7 @@ import (
 	"fmt"
 	"net/url"
 	"regexp"
+	"strings"
 
 	"github.com/google/jsonschema-go/jsonschema"
 )
@@ -26,7 +27,10 @@ type validateArgs struct {
 	// it hands out for `target` (parsed once, kept), where target is the URI of an entry of docs, or "#root" for the very object
 	// Resolve is being called on. With aliases present every document is parsed at most once per target, so one object can be
 	// served under several URLs (a /v1/ and a /latest/ name of one registry entry). Absent (the default): every Loader call
-	// unmarshals a fresh object, as before.
+	// unmarshals a fresh object, as before. A target may also name an INTERIOR node: "#root#/<JSON Pointer>" or
+	// "<uri of a docs entry>#/<JSON Pointer>" (pointer over subschema keywords, e.g. /$defs/x, /properties/p/items): the Loader
+	// then hands out the subschema object at that position of the one object kept for that document — a *Schema the caller of
+	// Resolve may already hold as a plain subschema. Targets without "#/" behave as before.
 	Aliases [][2]string `json:"aliases"`
 	// MaxLoads > 0: a Loader that gives up — it answers the first MaxLoads requests and fails every later one, and the reply carries
 	// "overrun": true. For universes whose resolution must ask for each document at most once: a load/resolve recursion that would
@@ -42,6 +46,13 @@ type validateArgs struct {
 	// json.Compact) — so the document still says what the schema means, and the model and the judge read the document. Absent
 	// (the default): nothing changes.
 	RawDefaults []rawDefault `json:"rawDefaults"`
+	// History (op defaults): [i0, i1, …] — indices into insts ++ ginsts (i < len(insts): the instance decoded into any, otherwise
+	// the typed instance ginsts[i-len(insts)]). ONE further, fresh Resolved gets ApplyDefaults for fresh copies of these instances
+	// in this order (instances of different Go types through one Resolved, e.g. a map[string]float32 first and a map[string]any
+	// after it); every step is compared with what a Resolved of its own (fresh Resolve, this instance only) gives for the same
+	// instance: same outcome, reflect.DeepEqual Go values (type-exact: float32(0.1) in a map[string]any is not float64 0.1), same
+	// Validate verdict of the completed instance. Reported as "history_free" / "history_detail". Absent (the default): not run.
+	History []int `json:"history"`
 }
 
 type rawDefault struct {
@@ -126,6 +137,36 @@ func buildUniverse(a *validateArgs) (*universe, error, error) {
 				}
 				if key == "#root" {
 					return u.root, nil
+				}
+				if i := strings.Index(key, "#/"); i >= 0 {
+					// an INTERIOR node: the subschema object at that JSON Pointer of the root object / of the one object
+					// served for the document (parsed now, and kept, if it was not asked for before)
+					var holder *jsonschema.Schema
+					if base := key[:i]; base == "#root" {
+						holder = u.root
+					} else if s, ok := shared[base]; ok {
+						holder = s
+					} else {
+						body, ok := docs[base]
+						if !ok {
+							return nil, errors.New("no such document")
+						}
+						txt, err := untag(body)
+						if err != nil {
+							return nil, err
+						}
+						holder = new(jsonschema.Schema)
+						if err := json.Unmarshal(txt, holder); err != nil {
+							return nil, err
+						}
+						u.loaded = append(u.loaded, holder)
+						shared[base] = holder
+					}
+					get, _, err := schemaSlot(holder, key[i+1:])
+					if err != nil {
+						return nil, err
+					}
+					return get(), nil
 				}
 				if s, ok := shared[key]; ok {
 					return s, nil
